@@ -6,7 +6,7 @@
    restricted to the retained terms; and the result passes the executable statements of C01, C02
    and C03 again.  The theorems say what its reference functions mean. *)
 From Coq Require Import Relations.
-From HpoV Require Import Gen.Consts Model.Base Model.Group Model.Onto Model.Query Model.SubOnt Run.World Run.C01 Run.C11 Run.C14 Proofs.C01P Proofs.C14P Proofs.ClosureP Proofs.DistP Proofs.SubP Proofs.QgoodP Proofs.SubLinksP Proofs.AcyclicP Proofs.RecordsP Proofs.AnnotP Proofs.SubAnnotP.
+From HpoV Require Import Gen.Consts Model.Base Model.Group Model.Onto Model.Query Model.SubOnt Run.World Run.C01 Run.C11 Run.C14 Proofs.C01P Proofs.C14P Proofs.ClosureP Proofs.DistP Proofs.SubP Proofs.QgoodP Proofs.SubLinksP Proofs.AcyclicP Proofs.RecordsP Proofs.AnnotP Proofs.SubAnnotP Proofs.SubDistP.
 
 Theorem C14_retained_on_shortest_chain : forall ts n l t root dl,
   sd n ts l root = Some dl ->
@@ -79,6 +79,22 @@ Theorem C14_model_annotations : forall icf o root leaves o', qgood o ->
       exists r, In r (o_records k o) /\ a_id r = g /\ kept pheno r /\ In x (a_hpos r) /\ In x ids.
 Proof. exact sub_ontology_annotations. Qed.
 
+(* EACH LEAF REACHES ROOT AT ITS ORIGINAL DISTANCE: the sub-ontology holds a chain of parent links from
+   every leaf to the root whose length d is the length of a shortest such chain of the source, and
+   none of its chains is shorter *)
+Theorem C14_model_leaf_distance_kept : forall icf o root leaves o' l, qgood o ->
+  (forall x, In x leaves -> In x (ar_keys (o_arena o))) -> sub_ontology icf o root leaves = Ok o' -> In l leaves ->
+  exists d, chain (o_arena o') l d (t_id root) /\ chain (o_arena o) l d (t_id root) /\
+            (forall n, chain (o_arena o) l n (t_id root) -> d <= n)%nat /\
+            (forall n, chain (o_arena o') l n (t_id root) -> d <= n)%nat.
+Proof. exact sub_ontology_leaf_distance. Qed.
+
+(* the sub-ontology contains every leaf and (for a non-empty collection of leaves) the root *)
+Theorem C14_model_contains_leaves_and_root : forall icf o root leaves o', qgood o ->
+  (forall x, In x leaves -> In x (ar_keys (o_arena o))) -> sub_ontology icf o root leaves = Ok o' ->
+  (forall l, In l leaves -> In l (ar_keys (o_arena o'))) /\ (leaves <> [] -> In (t_id root) (ar_keys (o_arena o'))).
+Proof. exact sub_ontology_contains_leaves_and_root. Qed.
+
 Print Assumptions C14_retained_on_shortest_chain.
 Print Assumptions C14_result_closure_exact.
 Print Assumptions C14_model_retained_set.
@@ -86,3 +102,5 @@ Print Assumptions C14_model_retained_on_shortest_chain.
 Print Assumptions C14_model_refusal.
 Print Assumptions C14_model_structure.
 Print Assumptions C14_model_annotations.
+Print Assumptions C14_model_leaf_distance_kept.
+Print Assumptions C14_model_contains_leaves_and_root.
